@@ -263,6 +263,30 @@ class C11Machine(RecordingMixin, RuleBasedStateMachine):
             self.prog = {"n": self.prog["n"], "ops": [*self.prog["ops"], op]}
         self.changed("edit-in-place-at")
 
+    def do_scribble_read(self, which, how):
+        """The caller post-processes, in place, the dictionary a distribution read handed out (drops the vacuum entry,
+        rescales, empties it). That is the caller's object; the sampler's settings have not changed, so it keeps
+        answering like a fresh one."""
+        if self.too_big():
+            return
+        obj = self.sampler if which == "sampler" else self.quick
+        for attr in ("probability_distribution", "continuous_distribution"):
+            try:
+                d = getattr(obj, attr)
+            except Exception:  # noqa: BLE001
+                return
+            try:
+                if how == "clear":
+                    d.clear()
+                elif how == "pop" and d:
+                    d.pop(next(iter(d)))
+                elif d:
+                    for k in list(d):
+                        d[k] = d[k] * 0.5 if not isinstance(d[k], tuple) else d[k]
+            except (TypeError, AttributeError):
+                pass                    # a read-only mapping is fine too
+        self.info_labels.add("caller-edits-returned-distribution")
+
     def do_reject_assign(self, which, attr, k):
         """An assignment the object refuses (it raises): its configuration is what it was before, so it keeps behaving
         like a fresh object with the unchanged settings. Should such a value be accepted instead, the previous valid
@@ -750,6 +774,17 @@ class C11Machine(RecordingMixin, RuleBasedStateMachine):
         self.step("wide_circuit", m=m, useed=useed, at=at)
         self.step("read", which=which)
         self.step("edit_at", pos=pos, refl=refl)
+        if sample:
+            self.step("sample", which=sample, seed=seed, n=20)
+        self.step("read", which=which)
+
+    @rule(which=st.sampled_from(["sampler", "quick"]), how=st.sampled_from(["clear", "pop", "scale"]),
+          sample=st.sampled_from(["N_inputs", "N_outputs", "quick.N_outputs", "quick.sample", "sampler.sample", None]),
+          seed=st.integers(0, 2 ** 20))
+    def r_read_scribble_use(self, which, how, sample, seed):
+        """distribution read -> the caller edits the returned dictionary in place -> sample / read again"""
+        self.step("read", which=which)
+        self.step("scribble_read", which=which, how=how)
         if sample:
             self.step("sample", which=sample, seed=seed, n=20)
         self.step("read", which=which)
